@@ -187,6 +187,7 @@ fn run_interp<M: AlignMarker>(desc: &RunDesc) -> ! {
         _ => {}
     }
     sh.signal_depth = desc.cfg.signal_depth;
+    sh.signal_pop_class = desc.cfg.signal_pop_class;
     shadow::install(sh);
     let mut specs = Vec::new();
     let max_phase = desc.threads.iter().map(|t| t.phase).max().unwrap_or(0);
